@@ -54,8 +54,8 @@ def merge_extra(parts, tier):
     return sc.cover_merge(parts)
 
 
-def describe(c):
-    an = sc.new_analyzer(c)
+def describe(c, an=None):
+    an = sc.new_analyzer(c) if an is None else an
     sets = an.get_wyckoff_sets_conventional(False)
     d = {
         "material_id": an.get_material_id(),
@@ -87,7 +87,21 @@ def run_case(desc):
     ok, r1 = call(describe, c1)
     if not ok:
         return out.fail("returns-normally", "%r" % r1, key="exc:" + exc_key(r1))
-    ok, r2 = call(describe, c2)
+    from vlib.case import dhash
+    reuse = int(dhash(desc), 16) % 4 == 0
+    if reuse:
+        # ONE analyser for both presentations (a quarter of the cases): it described presentation 1, is handed presentation 2
+        # through set_system() and must describe it as a fresh analyser would
+        out.cls("analyser:reused-for-second-presentation")
+
+        def second():
+            an = sc.new_analyzer(c1)
+            describe(c1, an)
+            an.set_system(c2.at)
+            return describe(c2, an)
+        ok, r2 = call(second)
+    else:
+        ok, r2 = call(describe, c2)
     if not ok:
         return out.fail("returns-normally", "%r" % r2, key="exc:" + exc_key(r2))
     (d1, conv1), (d2, conv2) = r1, r2
